@@ -513,6 +513,14 @@ def compare(case, got, spec, check_dtype=False):
     return None
 
 
+def _flat(x):
+    for v in x:
+        if isinstance(v, list):
+            yield from _flat(v)
+        else:
+            yield v
+
+
 def signature(case):
     """The fields known-finding regions may refer to."""
     arr = case["array"]
@@ -532,6 +540,7 @@ def signature(case):
         "nby": len(case["by"]),
         "min_count": case.get("min_count"),
         "fill_given": case.get("fill_value") is not None,
+        "no_valid_label": bool(case.get("expected_groups") is None and all(isinstance(b, dict) and len(b.get("data", [])) > 0 and all(v == "nan" for v in _flat(b["data"])) for b in case["by"])),
         "has_big_int": bool(isinstance(arr, dict) and str(arr.get("dtype", "")).startswith(("int64", "uint64")) and any(isinstance(v, int) and abs(v) > 2**53 for v in data)),
     }
 
